@@ -685,7 +685,7 @@ def run(ctx):
     st = Stats()
     gfind.replay_witnesses(ctx, driver_sources=DS)
     rng = ctx.rng
-    nb = int(os.environ.get("C07_NB", 5 if ctx.quick else 40))
+    nb = int(os.environ.get("C07_NB", 5 if ctx.quick else 20))
     nvals = 5 if ctx.quick else 16
     nvar = 8 if ctx.quick else 60
     built = 0
